@@ -30,16 +30,25 @@ EXPLANATION = ("Inventory of the guards that make invalid input fail closed, eac
 
 # reviewed handlers that do not (always) raise: (function, exception types) -> (max statements in the try body, reason)
 REVIEWED_HANDLERS = {
-    ("Attribute._guess_repr_code", "ReprCodeConverter.ReprCodeError"): (1, "code inference failure is logged and yields 'no code'; "
-                                                                       "writing the value then fails in write_struct"),
-    ("RepresentationCode.get_member", "ValueError"): (1, "probing by value, falls through to the final raise"),
-    ("RepresentationCode.get_member", "KeyError"): (1, "probing by name, falls through to the final raise"),
-    ("DTimeAttribute.parse_dtime", "ValueError"): (1, "format probing loop; for/else raises when no format fits"),
-    ("DTimeAttribute._convert_value", "self.DTimeFormatError"): (1, "float fallback only if allow_float, else re-raised"),
-    ("HDF5DataWrapper.close", "TypeError"): (1, "closing the source file"),
-    ("ValidatorEnum.make_converter.<locals>.converter", "ValueError"): (1, "membership probe; non-members raise or warn below"),
+    # keyed by the class (or, for module-level functions, the function) and the exception type: private methods may be
+    # renamed, the class and what is caught are the stable part
+    ("Attribute", "ReprCodeConverter.ReprCodeError"): (1, "code inference failure is logged and yields 'no code'; "
+                                                        "writing the value then fails in write_struct"),
+    ("RepresentationCode", "ValueError"): (1, "probing by value, falls through to the final raise"),
+    ("RepresentationCode", "KeyError"): (1, "probing by name, falls through to the final raise"),
+    ("DTimeAttribute", "ValueError"): (1, "format probing loop; raises when no format fits"),
+    ("DTimeAttribute", "self.DTimeFormatError"): (1, "float fallback only if allow_float, else re-raised"),
+    ("HDF5DataWrapper", "TypeError"): (1, "closing the source file"),
+    ("ValidatorEnum", "ValueError"): (1, "membership probe; non-members raise or warn below"),
     ("convert_maybe_numeric", "ValueError"): (1, "documented: returns the string unchanged if it is not numeric"),
 }
+
+
+def _handler_owner(f):
+    g = f
+    while g.cls is None and g.parent is not None:
+        g = g.parent
+    return g.cls.name if g.cls is not None else g.name
 
 
 def run(chk):
@@ -79,7 +88,8 @@ def r12_1(chk):
     chk.ok("R12.1", "completeness-on-write-path", "decided on the inlined summary of check_objects", co.where,
            nontrivial=False)
     glr = ix.get_method("DLISFile", "generate_logical_records")
-    gs = chk.summary(glr)
+    chk.consult(glr)
+    gs = chk.terms.inline(glr, 2, stop=lambda g: g.name in ("_make_multi_frame_data", "generator", "__init__"))
     lfs_t = A(SELF, "logical_files")
     ok = False
     for e in gs.effects:
@@ -206,7 +216,7 @@ def r12_4_handlers(chk):
                     continue
                 ok = True
                 for kt in key_types:
-                    rv = REVIEWED_HANDLERS.get((f.short, kt))
+                    rv = REVIEWED_HANDLERS.get((_handler_owner(f), kt))
                     if rv is None:
                         ok = False
                         chk.fail("R12.4", f"swallowing-handler:{f.short}:{kt}",
